@@ -95,9 +95,15 @@ def main(chk: core.Check, replay):
     kept = [o for o in out if not o["discarded"]]
     chk.replayed += len(kept)
     chk.extra["myokit_corpus"] = {"models": len(out), "kept": len(kept), "discarded_rendering": len(out) - len(kept),
-                                  "compared": sum(o["compared"] for o in out)}
-    if not kept:
-        raise core.MachineryFailure("every generated Myokit model was discarded")
+                                  "compared": sum(o["compared"] for o in out),
+                                  "discard_reasons": {}}
+    for o in out:
+        if o["discarded"]:
+            k = o["discarded"].split(":")[0] + ":" + o["discarded"].split(":", 1)[1][:70]
+            chk.extra["myokit_corpus"]["discard_reasons"][k] = chk.extra["myokit_corpus"]["discard_reasons"].get(k, 0) + 1
+    if len(kept) < 0.9 * len(out):
+        raise core.MachineryFailure(f"{len(out) - len(kept)} of {len(out)} generated Myokit models were discarded: "
+                                    f"{chk.extra['myokit_corpus']['discard_reasons']}")
     for o in out:
         for p in o["problems"]:
             chk.violation(f"C15:{p['kind']}:{p.get('state', p.get('name', ''))}", {**o, "problem": p},
